@@ -240,6 +240,13 @@ func (g *gen) constValue(t *ty, depth int) string {
 		}
 		if t.n == 4 && depth < 2 && g.chance("nestedCtor", 15) {
 			h := vec(2, t.sc)
+			if excluded("c09-const-splat-as-single-component-compose") {
+				// C09-17: a splat (or zero value) nested in a constant constructor is mis-flattened
+				full := func() string {
+					return fmt.Sprintf("%s(%s, %s)", h, g.scalarLit(t.sc, true), g.scalarLit(t.sc, true))
+				}
+				return fmt.Sprintf("%s(%s, %s)", t, full(), full())
+			}
 			return fmt.Sprintf("%s(%s, %s)", t, g.constValue(h, depth+1), g.constValue(h, depth+1))
 		}
 		parts := make([]string, t.n)
